@@ -125,6 +125,25 @@ def check(schema, dropped_names=(), dropped_ids=()):
         out.append((f'index:refs_to:{det[0][0] if det else "?"}',
                     'reverse reference index differs from the objects\' own data: '
                     + '; '.join(d for _, d in det[:4])))
+    # I6: keyed child collections (indexes, constraints, pointers, ... of an owner) cache the keys
+    #     of their members; a by-name lookup through the owner must agree with the members' names
+    for oid, data in fs._id_to_data.items():
+        tname = fs._id_to_type[oid]
+        sclass = so.ObjectMeta.get_schema_class(tname)
+        for field in sclass.get_object_reference_fields():
+            v = data[field.index]
+            if not isinstance(v, so.ObjectIndexBase) or getattr(v, '_keys', None) is None:
+                continue
+            try:
+                want = tuple(type(v).get_key_for(schema, schema.get_by_id(i)) for i in v._ids)
+            except Exception as e:
+                out.append((f'collection-keys-unreadable:{tname}.{field.name}', f'{_name_of(fs, oid)}: {e!r}'))
+                continue
+            if tuple(v._keys) != want:
+                bad = [(str(a), str(b)) for a, b in zip(v._keys, want) if a != b][:3]
+                out.append((f'index:collection-keys:{tname}.{field.name}',
+                            f'{tname} {_name_of(fs, oid)}: the keys cached by its `{field.name}` collection differ '
+                            f'from the names of the members (cached, actual): {bad}'))
     # I4: lookups agree
     for name, oid in list(exp_names.items())[:400]:
         try:
